@@ -29,6 +29,8 @@ def trM : Nat → Val → Option Val
   | 3, .struct [.uint x, .uint y] => some (.bytes (some [x, y]))
   | 4, .struct [l] => some l
   | 5, .struct [v] => some (.struct [v])
+  | 6, .struct [.str k, .int v] => some (.map (some [(.str k, .int v)]))
+  | 7, .struct [p] => some p
   | _, _ => none
 
 def trU : Nat → Val → Option Val
@@ -37,6 +39,8 @@ def trU : Nat → Val → Option Val
   | 3, .bytes (some [x, y]) => some (.struct [.uint x, .uint y])
   | 4, l => some (.struct [l])
   | 5, .struct [v] => some (.struct [v])
+  | 6, .map (some [(.str k, .int v)]) => some (.struct [.str k, .int v])
+  | 7, p => some (.struct [p])
   | _, _ => none
 
 def trLib : Trs := ⟨trM, trU⟩
